@@ -49,19 +49,50 @@ fn jb(b: &[u8]) -> String {
     crate::util::jb(b)
 }
 
+/// a source that delivers at most `chunk` bytes per call and reports Interrupted before every `intr_every`-th read
+/// (or, with `burst` > 0, that many times in a row once, in the middle of the input)
+pub struct SlowSrc<'a> {
+    inner: std::io::Cursor<&'a [u8]>,
+    chunk: usize,
+    intr_every: usize,
+    burst: usize,
+    calls: usize,
+}
+impl<'a> std::io::Read for SlowSrc<'a> {
+    fn read(&mut self, buf: &mut [u8]) -> std::io::Result<usize> {
+        self.calls += 1;
+        if self.intr_every > 0 && self.calls % self.intr_every == 0 {
+            return Err(std::io::Error::from(std::io::ErrorKind::Interrupted));
+        }
+        if self.burst > 0 && self.inner.position() as usize >= self.inner.get_ref().len() / 2 {
+            self.burst -= 1;
+            return Err(std::io::Error::from(std::io::ErrorKind::Interrupted));
+        }
+        let n = buf.len().min(self.chunk);
+        self.inner.read(&mut buf[..n])
+    }
+}
+impl<'a> std::io::Seek for SlowSrc<'a> {
+    fn seek(&mut self, p: std::io::SeekFrom) -> std::io::Result<u64> {
+        self.inner.seek(p)
+    }
+}
+
 macro_rules! long_driver {
     ($fname:ident, $m:ident, $posof:expr, $errjson:path) => {
-        fn $fname(fmt: &str, n: usize, cap: usize, crlf: bool, bad: bool, mode: &str) -> String {
+        fn $fname(fmt: &str, n: usize, cap: usize, crlf: bool, bad: bool, mode: &str, src: (usize, usize, usize)) -> String {
             use seq_io::$m::Record as _;
             let x = render(fmt, n, crlf, bad);
             let sm = samples(n);
             let r = std::panic::catch_unwind(std::panic::AssertUnwindSafe(|| {
-                let mut rdr = seq_io::$m::Reader::with_capacity(std::io::Cursor::new(&x[..]), cap);
+                let source = SlowSrc { inner: std::io::Cursor::new(&x[..]), chunk: if src.0 == 0 { usize::MAX } else { src.0 }, intr_every: src.1, burst: src.2, calls: 0 };
+                let mut rdr = seq_io::$m::Reader::with_capacity(source, cap);
                 let mut obs: Vec<String> = vec![];
                 let mut count = 0usize;
                 let mut last = String::from("{\"k\":\"none\"}");
                 let mut seekpos: Option<seq_io::$m::Position> = None;
                 let mut seek_target = 0usize;
+                let mut steady_allocs = 0u64;
                 let seek_k = if n >= 65537 { 65537 } else { n / 2 + 1 };
                 if mode == "next" {
                     loop {
@@ -90,8 +121,19 @@ macro_rules! long_driver {
                     }
                 } else {
                     let mut set = seq_io::$m::RecordSet::default();
+                    let mut nsets = 0usize;
+                    let mut maxset = 0usize;
                     loop {
-                        match rdr.read_record_set(&mut set) {
+                        let a0 = crate::alloc::count();
+                        let res = rdr.read_record_set(&mut set);
+                        let da = crate::alloc::count() - a0;
+                        nsets += 1;
+                        // allocations of a set read that holds no more records than an earlier one (after two warm-up reads)
+                        if nsets > 2 && set.len() <= maxset && matches!(res, Some(Ok(()))) {
+                            steady_allocs += da;
+                        }
+                        maxset = maxset.max(set.len());
+                        match res {
                             None => break,
                             Some(Err(e)) => {
                                 last = $errjson(&e);
@@ -132,6 +174,11 @@ macro_rules! long_driver {
                 let mut after_seek = String::from("{\"done\":false}");
                 if let Some(p) = seekpos {
                     let sr = rdr.seek(&p);
+                    let a0 = crate::alloc::count();
+                    let first_after = rdr.next().map(|r| r.is_ok());
+                    let seek_allocs = crate::alloc::count() - a0;
+                    let _ = first_after;
+                    let _ = rdr.seek(&p);
                     let nx = match rdr.next() {
                         None => "{\"k\":\"none\"}".to_string(),
                         Some(Err(e)) => $errjson(&e),
@@ -139,15 +186,15 @@ macro_rules! long_driver {
                     };
                     let p2: Option<(u64, u64)> = $posof(&rdr);
                     let (l, b) = p2.map(|(l, b)| (l as i64, b as i64)).unwrap_or((-1, -1));
-                    after_seek = format!("{{\"done\":true,\"ok\":{},\"target\":{},\"res\":{},\"line\":{},\"byte\":{}}}", sr.is_ok(), seek_target, nx, l, b);
+                    after_seek = format!("{{\"done\":true,\"ok\":{},\"target\":{},\"res\":{},\"line\":{},\"byte\":{},\"allocs_in_next\":{}}}", sr.is_ok(), seek_target, nx, l, b, seek_allocs);
                 }
-                format!("\"count\":{},\"last\":{},\"obs\":[{}],\"seek\":{}", count, last, obs.join(","), after_seek)
+                format!("\"count\":{},\"last\":{},\"obs\":[{}],\"seek\":{},\"steady_allocs\":{}", count, last, obs.join(","), after_seek, steady_allocs)
             }));
             let body = match r {
                 Ok(s) => format!("\"panic\":false,{}", s),
-                Err(_) => "\"panic\":true,\"count\":0,\"last\":{\"k\":\"panic\"},\"obs\":[],\"seek\":{\"done\":false}".to_string(),
+                Err(_) => "\"panic\":true,\"count\":0,\"last\":{\"k\":\"panic\"},\"obs\":[],\"seek\":{\"done\":false},\"steady_allocs\":0".to_string(),
             };
-            format!("{{\"ev\":\"long\",\"fmt\":\"{}\",\"n\":{},\"cap\":{},\"crlf\":{},\"bad\":{},\"mode\":\"{}\",{}}}", fmt, n, cap, crlf, bad, mode, body)
+            format!("{{\"ev\":\"long\",\"fmt\":\"{}\",\"n\":{},\"cap\":{},\"crlf\":{},\"bad\":{},\"mode\":\"{}\",\"src\":[{},{},{}],{}}}", fmt, n, cap, crlf, bad, mode, src.0, src.1, src.2, body)
         }
     };
 }
@@ -179,16 +226,21 @@ long_driver!(run_fastq, fastq, fq_pos, crate::reader::fq::err_json);
 
 /// one giant record followed by a small one: FASTA ">big d" with m sequence lines of w bytes (line i starts with
 /// "ACGT"[i % 4] and goes on with 'N's), FASTQ "@big d" with a sequence and a quality line of w bytes
-fn render_giant(fmt: &str, m: usize, w: usize, crlf: bool) -> Vec<u8> {
+fn line_width(i: usize, w: usize, alt: usize) -> usize {
+    if alt > 0 && i % 2 == 1 { alt } else { w }
+}
+
+fn render_giant(fmt: &str, m: usize, w: usize, crlf: bool, alt: usize, qual_extra: usize) -> Vec<u8> {
     let e: &[u8] = if crlf { b"\r\n" } else { b"\n" };
     let mut x = Vec::with_capacity(m * (w + 2) * 2 + 64);
     if fmt == "fasta" {
         x.extend(b">big d");
         x.extend(e);
         for i in 1..=m {
-            if w > 0 {
+            let wi = line_width(i, w, alt);
+            if wi > 0 {
                 x.push(b"ACGT"[i % 4]);
-                x.extend(std::iter::repeat(b'N').take(w - 1));
+                x.extend(std::iter::repeat(b'N').take(wi - 1));
             }
             x.extend(e);
         }
@@ -203,7 +255,7 @@ fn render_giant(fmt: &str, m: usize, w: usize, crlf: bool) -> Vec<u8> {
         x.extend(e);
         x.extend(b"+");
         x.extend(e);
-        x.extend(std::iter::repeat(b'I').take(w));
+        x.extend(std::iter::repeat(b'I').take(w + qual_extra));
         x.extend(e);
         x.extend(b"@next");
         x.extend(e);
@@ -217,9 +269,28 @@ fn render_giant(fmt: &str, m: usize, w: usize, crlf: bool) -> Vec<u8> {
     x
 }
 
-fn giant_fasta(m: usize, w: usize, cap: usize, crlf: bool, via_set: bool) -> String {
+fn profile(o: &[u8]) -> (Vec<u8>, bool, Vec<u8>, Vec<(usize, usize)>) {
+    let ends_lf = o.last() == Some(&b'\n');
+    let mut lines: Vec<&[u8]> = o.split(|b| *b == b'\n').collect();
+    if ends_lf {
+        lines.pop();
+    }
+    let head = lines.first().map(|l| l.to_vec()).unwrap_or_default();
+    let body = if lines.is_empty() { &lines[..] } else { &lines[1..] };
+    let joined: Vec<u8> = body.concat();
+    let mut rle: Vec<(usize, usize)> = vec![];
+    for l in body {
+        match rle.last_mut() {
+            Some((n, c)) if *n == l.len() => *c += 1,
+            _ => rle.push((l.len(), 1)),
+        }
+    }
+    (head, ends_lf, joined, rle)
+}
+
+fn giant_fasta(m: usize, w: usize, cap: usize, crlf: bool, via_set: bool, alt: usize) -> String {
     use seq_io::fasta::Record as _;
-    let x = render_giant("fasta", m, w, crlf);
+    let x = render_giant("fasta", m, w, crlf, alt, 0);
     let sm = samples(m);
     let r = std::panic::catch_unwind(std::panic::AssertUnwindSafe(|| {
         let mut rdr = seq_io::fasta::Reader::with_capacity(std::io::Cursor::new(&x[..]), cap);
@@ -236,16 +307,31 @@ fn giant_fasta(m: usize, w: usize, cap: usize, crlf: bool, via_set: bool) -> Str
                 }
             }
             let back = rec.seq_lines().next_back().map(|l| l.len() as i64).unwrap_or(-1);
+            // what RefRecord::write and the owned copy write (unwrapped: one line), and the owned copy after a serde round trip
+            let owned_seq = rec.owned_seq();
+            let mut wo = vec![];
+            rec.write(&mut wo).unwrap();
+            let (wh, wlf, wj, wr) = profile(&wo);
+            let o = rec.to_owned_record();
+            let back_o: seq_io::fasta::OwnedRecord = serde_json::from_str(&serde_json::to_string(&o).unwrap()).unwrap();
             format!(
-                "{{\"k\":\"rec\",\"head\":{},\"nlines\":{},\"iterated\":{},\"len_hint\":{},\"sum\":{},\"owned\":{},\"full\":{},\"raw\":{},\"last_from_back\":{},\"lines\":[{}]}}",
-                jb(rec.head()), rec.num_seq_lines(), i, rec.seq_lines().len(), total, rec.owned_seq().len(), rec.full_seq().len(), rec.seq().len(), back, lines.join(",")
+                "{{\"k\":\"rec\",\"head\":{},\"nlines\":{},\"iterated\":{},\"len_hint\":{},\"sum\":{},\"owned\":{},\"full\":{},\"raw\":{},\"last_from_back\":{},\"lines\":[{}],\"write\":{{\"headline\":{},\"ends_lf\":{},\"joined_is_seq\":{},\"nlines\":{}}},\"serde_owned_eq\":{}}}",
+                jb(rec.head()), rec.num_seq_lines(), i, rec.seq_lines().len(), total, owned_seq.len(), rec.full_seq().len(), rec.seq().len(), back, lines.join(","),
+                jb(&wh), wlf, wj == owned_seq, wr.iter().map(|(_, c)| *c).sum::<usize>(), back_o == o
             )
         };
+        let mut serde_same = true;
         let (first, p1, second, p2);
         if via_set {
-            let ok = matches!(rdr.read_record_set(&mut set), Some(Ok(())));
-            let recs: Vec<String> = if ok { set.into_iter().map(|r| describe(&r)).collect() } else { vec![] };
-            first = recs.get(0).cloned().unwrap_or_else(|| "{\"k\":\"none\"}".into());
+            let res = rdr.read_record_set(&mut set);
+            let errj = match &res { Some(Err(e)) => Some(crate::reader::fa::err_json(e)), _ => None };
+            let ok = matches!(res, Some(Ok(())));
+            // the records are described from a serde round trip of the set (C19), the set itself must say the same
+            let set2: seq_io::fasta::RecordSet = serde_json::from_str(&serde_json::to_string(&set).unwrap()).unwrap();
+            let recs0: Vec<String> = if ok { set.into_iter().map(|r| describe(&r)).collect() } else { vec![] };
+            let recs: Vec<String> = if ok { set2.into_iter().map(|r| describe(&r)).collect() } else { vec![] };
+            serde_same = recs0 == recs;
+            first = recs.get(0).cloned().or(errj).unwrap_or_else(|| "{\"k\":\"none\"}".into());
             second = if recs.len() > 1 {
                 recs[1].clone()
             } else {
@@ -273,35 +359,46 @@ fn giant_fasta(m: usize, w: usize, cap: usize, crlf: bool, via_set: bool) -> Str
         }
         let third_none = rdr.next().is_none();
         let pj = |p: Option<(u64, u64)>| p.map(|(l, b)| format!("[{},{}]", l, b)).unwrap_or_else(|| "[]".into());
-        format!("\"first\":{},\"pos1\":{},\"second\":{},\"pos2\":{},\"then_none\":{}", first, pj(p1), second, pj(p2), third_none)
+        format!("\"first\":{},\"pos1\":{},\"second\":{},\"pos2\":{},\"then_none\":{},\"serde_set_same\":{}", first, pj(p1), second, pj(p2), third_none, serde_same)
     }));
     let body = match r {
         Ok(s) => format!("\"panic\":false,{}", s),
         Err(_) => "\"panic\":true".to_string(),
     };
-    format!("{{\"ev\":\"giant\",\"fmt\":\"fasta\",\"m\":{},\"w\":{},\"cap\":{},\"crlf\":{},\"via_set\":{},{}}}", m, w, cap, crlf, via_set, body)
+    format!("{{\"ev\":\"giant\",\"fmt\":\"fasta\",\"m\":{},\"w\":{},\"alt\":{},\"extra\":0,\"cap\":{},\"crlf\":{},\"via_set\":{},{}}}", m, w, alt, cap, crlf, via_set, body)
 }
 
-fn giant_fastq(w: usize, cap: usize, crlf: bool, via_set: bool) -> String {
+fn giant_fastq(w: usize, cap: usize, crlf: bool, via_set: bool, qual_extra: usize) -> String {
     use seq_io::fastq::Record as _;
-    let x = render_giant("fastq", 1, w, crlf);
+    let x = render_giant("fastq", 1, w, crlf, 0, qual_extra);
     let r = std::panic::catch_unwind(std::panic::AssertUnwindSafe(|| {
         let mut rdr = seq_io::fastq::Reader::with_capacity(std::io::Cursor::new(&x[..]), cap);
         let mut set = seq_io::fastq::RecordSet::default();
         let describe = |rec: &seq_io::fastq::RefRecord| -> String {
             let o = rec.to_owned_record();
+            let back_o: seq_io::fastq::OwnedRecord = serde_json::from_str(&serde_json::to_string(&o).unwrap()).unwrap();
+            let mut wo = vec![];
+            rec.write(&mut wo).unwrap();
+            let wl: Vec<usize> = wo.split(|b| *b == b'\n').map(|l| l.len()).collect();
             format!(
-                "{{\"k\":\"rec\",\"head\":{},\"seqlen\":{},\"quallen\":{},\"oseqlen\":{},\"oquallen\":{},\"seq_first\":{},\"seq_last\":{},\"qual_first\":{},\"qual_last\":{}}}",
+                "{{\"k\":\"rec\",\"serde_owned_eq\":{},\"serde_quallen\":{},\"written_line_lens\":{:?},\"head\":{},\"seqlen\":{},\"quallen\":{},\"oseqlen\":{},\"oquallen\":{},\"seq_first\":{},\"seq_last\":{},\"qual_first\":{},\"qual_last\":{}}}",
+                back_o == o, back_o.qual.len(), wl,
                 jb(rec.head()), rec.seq().len(), rec.qual().len(), o.seq.len(), o.qual.len(),
                 rec.seq().first().map(|b| *b as i64).unwrap_or(-1), rec.seq().last().map(|b| *b as i64).unwrap_or(-1),
                 rec.qual().first().map(|b| *b as i64).unwrap_or(-1), rec.qual().last().map(|b| *b as i64).unwrap_or(-1)
             )
         };
+        let mut serde_same = true;
         let (first, p1, second, p2);
         if via_set {
-            let ok = matches!(rdr.read_record_set(&mut set), Some(Ok(())));
-            let recs: Vec<String> = if ok { set.into_iter().map(|r| describe(&r)).collect() } else { vec![] };
-            first = recs.get(0).cloned().unwrap_or_else(|| "{\"k\":\"none\"}".into());
+            let res = rdr.read_record_set(&mut set);
+            let errj = match &res { Some(Err(e)) => Some(crate::reader::fq::err_json(e)), _ => None };
+            let ok = matches!(res, Some(Ok(())));
+            let set2: seq_io::fastq::RecordSet = serde_json::from_str(&serde_json::to_string(&set).unwrap()).unwrap();
+            let recs0: Vec<String> = if ok { set.into_iter().map(|r| describe(&r)).collect() } else { vec![] };
+            let recs: Vec<String> = if ok { set2.into_iter().map(|r| describe(&r)).collect() } else { vec![] };
+            serde_same = recs0 == recs;
+            first = recs.get(0).cloned().or(errj).unwrap_or_else(|| "{\"k\":\"none\"}".into());
             second = if recs.len() > 1 {
                 recs[1].clone()
             } else {
@@ -329,57 +426,93 @@ fn giant_fastq(w: usize, cap: usize, crlf: bool, via_set: bool) -> String {
         }
         let third_none = rdr.next().is_none();
         let pj = |p: Option<(u64, u64)>| p.map(|(l, b)| format!("[{},{}]", l, b)).unwrap_or_else(|| "[]".into());
-        format!("\"first\":{},\"pos1\":{},\"second\":{},\"pos2\":{},\"then_none\":{}", first, pj(p1), second, pj(p2), third_none)
+        format!("\"first\":{},\"pos1\":{},\"second\":{},\"pos2\":{},\"then_none\":{},\"serde_set_same\":{}", first, pj(p1), second, pj(p2), third_none, serde_same)
     }));
     let body = match r {
         Ok(s) => format!("\"panic\":false,{}", s),
         Err(_) => "\"panic\":true".to_string(),
     };
-    format!("{{\"ev\":\"giant\",\"fmt\":\"fastq\",\"m\":1,\"w\":{},\"cap\":{},\"crlf\":{},\"via_set\":{},{}}}", w, cap, crlf, via_set, body)
+    format!("{{\"ev\":\"giant\",\"fmt\":\"fastq\",\"m\":1,\"w\":{},\"alt\":0,\"extra\":{},\"cap\":{},\"crlf\":{},\"via_set\":{},{}}}", w, qual_extra, cap, crlf, via_set, body)
 }
 
 /// wrapped writing of a long sequence: the output is described by its header line, the run-length encoded lengths of
 /// its sequence lines and whether the lines joined are the sequence that was written
-fn long_write(len: usize, w: usize, how: &str) -> String {
+fn long_write(len: usize, w: usize, how: &str, headlen: usize) -> String {
     let seq: Vec<u8> = (0..len).map(|i| b"ACGT"[i % 4]).collect();
+    // the header: "id d" or, if headlen > 0, "id " followed by 'h's up to that length
+    let head: Vec<u8> = if headlen == 0 { b"id d".to_vec() } else { let mut h = b"id ".to_vec(); h.extend(std::iter::repeat(b'h').take(headlen.saturating_sub(3))); h };
+    let desc: Vec<u8> = head[3..].to_vec();
+    // chunks of uneven sizes: 60, 6000, 1, 4096, 0, 5000, ... (a long chunk after shorter ones)
+    let uneven: Vec<&[u8]> = {
+        let sizes = [60usize, 6000, 1, 4096, 0, 5000, 100, 4095, 4097];
+        let mut v = vec![];
+        let mut at = 0;
+        let mut i = 0;
+        while at < seq.len() {
+            let n = sizes[i % sizes.len()].min(seq.len() - at);
+            v.push(&seq[at..at + n]);
+            at += n;
+            i += 1;
+        }
+        v
+    };
     let r = std::panic::catch_unwind(std::panic::AssertUnwindSafe(|| {
         let mut o = vec![];
         match how {
-            "write_wrap" => seq_io::fasta::write_wrap(&mut o, b"id", Some(b"d"), &seq, w).unwrap(),
+            "write_wrap" => seq_io::fasta::write_wrap(&mut o, b"id", Some(&desc[..]), &seq, w).unwrap(),
             "owned_wrap" => {
                 use seq_io::fasta::Record as _;
-                seq_io::fasta::OwnedRecord { head: b"id d".to_vec(), seq: seq.clone() }.write_wrap(&mut o, w).unwrap()
+                seq_io::fasta::OwnedRecord { head: head.clone(), seq: seq.clone() }.write_wrap(&mut o, w).unwrap()
+            }
+            "owned_plain" => {
+                use seq_io::fasta::Record as _;
+                seq_io::fasta::OwnedRecord { head: head.clone(), seq: seq.clone() }.write(&mut o).unwrap()
+            }
+            "write_to" => seq_io::fasta::write_to(&mut o, &head, &seq).unwrap(),
+            "iter_uneven" => {
+                seq_io::fasta::write_head(&mut o, &head).unwrap();
+                seq_io::fasta::write_wrap_seq_iter(&mut o, uneven.iter().cloned(), w).unwrap()
+            }
+            "seq_iter_uneven" => {
+                seq_io::fasta::write_head(&mut o, &head).unwrap();
+                seq_io::fasta::write_seq_iter(&mut o, uneven.iter().cloned()).unwrap()
             }
             _ => {
-                seq_io::fasta::write_head(&mut o, b"id d").unwrap();
+                seq_io::fasta::write_head(&mut o, &head).unwrap();
                 seq_io::fasta::write_wrap_seq_iter(&mut o, seq.chunks(1000), w).unwrap()
             }
         }
-        let ends_lf = o.last() == Some(&b'\n');
-        let mut lines: Vec<&[u8]> = o.split(|b| *b == b'\n').collect();
-        if ends_lf {
-            lines.pop();
-        }
-        let head = lines.first().map(|l| l.to_vec()).unwrap_or_default();
-        let body = if lines.is_empty() { &lines[..] } else { &lines[1..] };
-        let joined: Vec<u8> = body.concat();
-        let mut rle: Vec<(usize, usize)> = vec![];
-        for l in body {
-            match rle.last_mut() {
-                Some((n, c)) if *n == l.len() => *c += 1,
-                _ => rle.push((l.len(), 1)),
-            }
-        }
+        let (hl, ends_lf, joined, rle) = profile(&o);
+        let mut want = vec![b'>'];
+        want.extend(&head);
         format!(
-            "\"headline\":{},\"ends_lf\":{},\"joined_is_seq\":{},\"nbytes\":{},\"rle\":[{}]",
-            jb(&head), ends_lf, joined == seq, o.len(), rle.iter().map(|(n, c)| format!("[{},{}]", n, c)).collect::<Vec<_>>().join(",")
+            "\"headline_is_head\":{},\"ends_lf\":{},\"joined_is_seq\":{},\"nbytes\":{},\"rle\":[{}]",
+            hl == want, ends_lf, joined == seq, o.len(), rle.iter().map(|(n, c)| format!("[{},{}]", n, c)).collect::<Vec<_>>().join(",")
         )
     }));
     let body = match r {
         Ok(s) => format!("\"panic\":false,{}", s),
         Err(_) => "\"panic\":true".to_string(),
     };
-    format!("{{\"ev\":\"longw\",\"fmt\":\"fasta\",\"cap\":0,\"len\":{},\"w\":{},\"how\":\"{}\",{}}}", len, w, how, body)
+    format!("{{\"ev\":\"longw\",\"fmt\":\"fasta\",\"cap\":0,\"len\":{},\"w\":{},\"how\":\"{}\",\"headlen\":{},{}}}", len, w, how, headlen, body)
+}
+
+/// the built-in policies asked directly at sizes around their thresholds (answers clamped to 2^31-1 in the log; 0 = refused)
+fn policy_table() -> Vec<String> {
+    use seq_io::policy::{BufPolicy, DoubleUntil, DoubleUntilLimited, StdPolicy};
+    let clamp = |a: Option<usize>| a.map(|v| v.min(i32::MAX as usize)).unwrap_or(0);
+    let mut rows = vec![];
+    let sizes: Vec<usize> = vec![3, 4, 255, 256, 65535, 65536, (1 << 23) - 1, 1 << 23, (1 << 23) + 1, 3 << 22, 1 << 24, (1 << 24) + 5, 1 << 26, (1 << 29) + 7];
+    for &c in &sizes {
+        rows.push(format!("{{\"p\":{{\"k\":\"std\",\"a\":0,\"b\":0}},\"c\":{},\"a\":{}}}", c, clamp(StdPolicy.grow_to(c))));
+        for d in [1usize, 256, 65536, 1 << 20, 1 << 23] {
+            rows.push(format!("{{\"p\":{{\"k\":\"du\",\"a\":{},\"b\":0}},\"c\":{},\"a\":{}}}", d, c, clamp(DoubleUntil(d).grow_to(c))));
+            for l in [d, 2 * d, 2 * c, 2 * c - 1, 2 * c + 1, c + d, c + d - 1, c + d + 1, 1 << 30] {
+                rows.push(format!("{{\"p\":{{\"k\":\"dul\",\"a\":{},\"b\":{}}},\"c\":{},\"a\":{}}}", d, l, c, clamp(DoubleUntilLimited::new(d, l).grow_to(c))));
+            }
+        }
+    }
+    rows
 }
 
 pub fn cmd_long(out: &str, _seed: u64, thorough: bool) {
@@ -395,7 +528,7 @@ pub fn cmd_long(out: &str, _seed: u64, thorough: bool) {
                             continue; // FASTA knows no error after the first record
                         }
                         for mode in ["next", "set"] {
-                            let line = if fmt == "fasta" { run_fasta(fmt, n, cap, crlf, bad, mode) } else { run_fastq(fmt, n, cap, crlf, bad, mode) };
+                            let line = if fmt == "fasta" { run_fasta(fmt, n, cap, crlf, bad, mode, (0, 0, 0)) } else { run_fastq(fmt, n, cap, crlf, bad, mode, (0, 0, 0)) };
                             writeln!(f, "{}", line).unwrap();
                             cases += 1;
                         }
@@ -406,9 +539,20 @@ pub fn cmd_long(out: &str, _seed: u64, thorough: bool) {
     }
     // one record set that holds more than 65 535 records (a buffer of 4 MiB)
     for fmt in ["fasta", "fastq"] {
-        let line = if fmt == "fasta" { run_fasta(fmt, 70000, 4 << 20, false, false, "set") } else { run_fastq(fmt, 70000, 4 << 20, false, true, "set") };
+        let line = if fmt == "fasta" { run_fasta(fmt, 70000, 4 << 20, false, false, "set", (0, 0, 0)) } else { run_fastq(fmt, 70000, 4 << 20, false, true, "set", (0, 0, 0)) };
         writeln!(f, "{}", line).unwrap();
         cases += 1;
+    }
+    // a slow source: 100 bytes per call and an interruption before every second read (several hundred interruptions within
+    // one refill of a 64 KiB buffer), or 300 interruptions in a row
+    for fmt in ["fasta", "fastq"] {
+        for src in [(100usize, 2usize, 0usize), (0, 0, 300), (7, 3, 0)] {
+            for mode in ["next", "set"] {
+                let line = if fmt == "fasta" { run_fasta(fmt, 8000, 65536, false, false, mode, src) } else { run_fastq(fmt, 8000, 65536, false, true, mode, src) };
+                writeln!(f, "{}", line).unwrap();
+                cases += 1;
+            }
+        }
     }
     // giant records: many lines, long lines, lengths around the default buffer size of 64 KiB
     let shapes: Vec<(usize, usize)> = if thorough { vec![(70000, 3), (140000, 1), (3, 70000), (1, 65535), (1, 65536), (1, 65537), (1, 200000), (300, 300)] } else { vec![(70000, 3), (3, 70000), (1, 65536), (1, 200000), (300, 300)] };
@@ -416,23 +560,48 @@ pub fn cmd_long(out: &str, _seed: u64, thorough: bool) {
         for cap in [64usize, 65536] {
             for crlf in [false, true] {
                 for via_set in [false, true] {
-                    writeln!(f, "{}", giant_fasta(m, w, cap, crlf, via_set)).unwrap();
+                    writeln!(f, "{}", giant_fasta(m, w, cap, crlf, via_set, 0)).unwrap();
                     cases += 1;
                     if m == 1 {
-                        writeln!(f, "{}", giant_fastq(w, cap, crlf, via_set)).unwrap();
+                        writeln!(f, "{}", giant_fastq(w, cap, crlf, via_set, 0)).unwrap();
                         cases += 1;
+                    }
+                    if m == 300 {
+                        // short and long lines alternating (60 / 6000 bytes)
+                        writeln!(f, "{}", giant_fasta(40, 6000, cap, crlf, via_set, 60)).unwrap();
+                        // sequence and quality lengths that differ by a multiple of 2^16
+                        writeln!(f, "{}", giant_fastq(100, cap, crlf, via_set, 65536)).unwrap();
+                        writeln!(f, "{}", giant_fastq(7, cap, crlf, via_set, 196608)).unwrap();
+                        cases += 3;
                     }
                 }
             }
         }
     }
+    {
+        let rows = std::panic::catch_unwind(policy_table);
+        match rows {
+            Ok(r) => writeln!(f, "{{\"ev\":\"poltab\",\"fmt\":\"\",\"cap\":0,\"panic\":false,\"rows\":[{}]}}", r.join(",")).unwrap(),
+            Err(_) => writeln!(f, "{{\"ev\":\"poltab\",\"fmt\":\"\",\"cap\":0,\"panic\":true,\"rows\":[]}}").unwrap(),
+        }
+        cases += 1;
+    }
     // wrapped writing of long sequences with widths around 2^8 and 2^16
     for len in if thorough { vec![70000usize, 131072, 200001] } else { vec![70000usize, 131072] } {
         for w in [255usize, 256, 257, 4096, 65535, 65536, 65537] {
-            for how in ["write_wrap", "owned_wrap", "iter"] {
-                writeln!(f, "{}", long_write(len, w, how)).unwrap();
+            for how in ["write_wrap", "owned_wrap", "iter", "iter_uneven"] {
+                writeln!(f, "{}", long_write(len, w, how, 0)).unwrap();
                 cases += 1;
             }
+        }
+    }
+    // unwrapped writing from uneven chunks; header lines of 254..257 and around 65 536 bytes through every entry point
+    writeln!(f, "{}", long_write(70000, 0, "seq_iter_uneven", 0)).unwrap();
+    cases += 1;
+    for headlen in [253usize, 254, 255, 256, 257, 65535, 65536, 65537] {
+        for how in ["write_wrap", "owned_wrap", "owned_plain", "write_to", "iter"] {
+            writeln!(f, "{}", long_write(50, if how == "owned_plain" || how == "write_to" { 0 } else { 20 }, how, headlen)).unwrap();
+            cases += 1;
         }
     }
     f.flush().unwrap();
